@@ -481,7 +481,52 @@ func berUnit() harness.Unit {
 		for n := 1; n <= 40; n++ {
 			guardCall(c, t, "high-tag-number", append([]byte{0x3f}, bytes.Repeat([]byte{0xff}, n)...))
 		}
-		c.Sample("all 65536 two-byte inputs; nesting depth 10..10000 definite/indefinite/unterminated; long high-tag-number forms")
+		// nesting whose claimed lengths do NOT fit into each other: constructed elements whose length
+		// byte follows a short period (every pattern of up to three values from {0, 2, 4, 6, 8, indefinite}),
+		// 20 to 90 levels deep, closed by a few NULLs. A reader that resumes after a child at the child's
+		// CLAIMED end parses the same bytes again and again.
+		lens := []byte{0x00, 0x02, 0x04, 0x06, 0x08, 0x80}
+		var pats [][]byte
+		for _, a := range lens {
+			pats = append(pats, []byte{a})
+			for _, b := range lens {
+				pats = append(pats, []byte{a, b})
+				for _, d := range lens {
+					pats = append(pats, []byte{a, b, d})
+				}
+			}
+		}
+		for _, pat := range pats {
+			for _, tag := range []byte{0x30, 0xa0} {
+				// depth grows in small steps; the first depth that needs more than half a second for an
+				// input of under 200 bytes ends the series (going deeper would only exhaust memory)
+				for levels := 16; levels <= 96; levels += 8 {
+					var in []byte
+					for i := 0; i < levels; i++ {
+						in = append(in, tag, pat[i%len(pat)])
+					}
+					in = append(in, 0x05, 0x00, 0x05, 0x00, 0x05, 0x00, 0x05, 0x00, 0x00, 0x00, 0x00, 0x00)
+					c.Add("evaluations", 1)
+					c.Distinct("nontrivial", append([]byte(t.name), in...))
+					t0 := time.Now()
+					pan := harness.Try(func() { t.call(in) })
+					dur := time.Since(t0)
+					if pan != nil {
+						c.Violate("panic:"+t.name+":nesting-with-overlapping-lengths", fmt.Sprintf("%s panicked on a %d-byte input: %v\ninput=%s", t.name, len(in), pan, hex.EncodeToString(in)), nil, hex.EncodeToString(in))
+						break
+					}
+					if dur > 500*time.Millisecond {
+						again := time.Now()
+						harness.Try(func() { t.call(in) })
+						if time.Since(again) > 500*time.Millisecond {
+							c.Violate("superlinear:"+t.name+":nesting-with-overlapping-lengths", fmt.Sprintf("%s needs %v for a %d-byte input (%d constructed elements whose claimed lengths follow the pattern %x and do not nest); 8 levels fewer took a fraction of that\ninput=%s", t.name, dur, len(in), levels, pat, hex.EncodeToString(in)), nil, hex.EncodeToString(in))
+							break
+						}
+					}
+				}
+			}
+		}
+		c.Sample("all 65536 two-byte inputs; nesting depth 10..10000 definite/indefinite/unterminated; long high-tag-number forms; 258 periodic length patterns x depths 16..96 x 2 tags of constructed elements whose claimed lengths do not nest")
 	}}
 }
 
